@@ -54,8 +54,10 @@ def merge_paths(paths):
     def tree(ps, depth, pick):
         if len(ps) == 1 or all(len(p.conds) <= depth for p in ps):
             return pick(ps[0])
+        from ..vgraph import dkey
         test = ps[0].conds[depth][0]
-        if any(len(p.conds) <= depth or p.conds[depth][0] != test for p in ps):
+        tk = dkey(test)
+        if any(len(p.conds) <= depth or dkey(p.conds[depth][0]) != tk for p in ps):
             # not a common decision at this depth: cannot merge soundly
             raise AnalysisError("static paths do not form a decision tree on common tests")
         yes = [p for p in ps if p.conds[depth][1]]
@@ -240,12 +242,25 @@ def merge_nodes(test, a, b, depth=0):
     if not (isinstance(a, tuple) and isinstance(b, tuple)):
         return ("ite", test, a, b)
     tagged = bool(a) and bool(b) and isinstance(a[0], str) and a[0] == b[0] and a[0] in TAGGED
+    if tagged and a[0] == "call" and not _same_callee(a[1], b[1]):
+        return ("ite", test, a, b)  # different functions are called: select between the two calls, not between callees
     if tagged and len(a) == len(b) and depth < 60:
         try:
             return _merge_children(test, a, b, depth)
         except _NoMerge:
             return ("ite", test, a, b)
     return ("ite", test, a, b)
+
+
+def _same_callee(f, g):
+    if isinstance(f, Closure) and isinstance(g, Closure):
+        return f.node is g.node
+    if isinstance(f, Closure) or isinstance(g, Closure):
+        return False
+    try:
+        return f == g
+    except Exception:  # noqa: BLE001
+        return False
 
 
 def _merge_children(test, a, b, depth):
